@@ -1501,11 +1501,13 @@ class MacroFunction(Macro):
         arg_str = ",".join([str(t) for t in self.args])
         return [f"{self.name!s}({arg_str!s})={replacement_str!s}"]
 
-    def replace(self, input_args):
+    def replace(self, input_args, separators=None):
         """
         Return the substituted replacement for this macro.
         input_args is expected to be a list of (original,
         pre-expanded) arguments passed to this.
+        separators optionally holds the comma tokens that followed each
+        argument, so that variadic arguments keep their original spacing.
         """
         # Arguments missing from the invocation are treated as empty.
         required = len(self.args) - (1 if self.variadic else 0)
@@ -1518,6 +1520,8 @@ class MacroFunction(Macro):
             va_args_raw = []
             va_args_exp = []
             for idx in range(len(self.args) - 1, len(input_args) - 1):
+                if separators and idx < len(separators):
+                    comma = separators[idx]
                 va_args_raw.extend(input_args[idx][0])
                 va_args_raw.append(comma)
                 va_args_exp.extend(input_args[idx][1])
@@ -1874,6 +1878,7 @@ class MacroExpander:
                     else:
                         _ = self.consume_tok()
                     args = []
+                    separators = []
                     current_arg = []
                     open_paren_count = 1
 
@@ -1881,6 +1886,7 @@ class MacroExpander:
                         tok = self.consume_tok()
                         if tok.token == "," and open_paren_count == 1:
                             args.append(current_arg)
+                            separators.append(tok)
                             current_arg = []
                             continue
 
@@ -1911,7 +1917,10 @@ class MacroExpander:
                             # variadic arguments are gathered from both forms.
                             pre_expanded.append((arg, arg))
                     # Proper expand
-                    replacement = macro_lookup.replace(pre_expanded)
+                    replacement = macro_lookup.replace(
+                        pre_expanded,
+                        separators,
+                    )
                     if isinstance(replacement, list) and len(replacement) > 0:
                         replacement[0] = copy(replacement[0])
                         replacement[0].prev_white = ctok.prev_white
